@@ -35,6 +35,12 @@
 #ifndef IN_n
 #define IN_n 0
 #endif
+#ifndef IN_a
+#define IN_a 0
+#endif
+#ifndef IN_b
+#define IN_b 0
+#endif
 static int rp_failed = 0;
 #define RP_CHECK(c) do { if (!(c)) { printf("REPLAY: contract clause violated on the real code: %s\n", #c); rp_failed = 1; } } while (0)
 #define CANARY() ((void)0)
@@ -247,6 +253,19 @@ static inline void *rp_fresh(size_t n) { void *p = malloc(n ? n : 1); memset(p, 
 #else
 #define W_REL(fn, T, DOM, ...) bool fn(T x) __VA_ARGS__
 #define H_REL(hn, fn, T, DOM) void hn(void) { T x = (T)IN_x; if (!(DOM(x))) return; RP_CHECK(fn(x) == true); }
+#endif
+
+/* --- relational wrapper over two values  bool fn(T a, T b) --- */
+#ifndef VERIF_NATIVE
+#define W_REL2(fn, T, DOM, ...) bool fn(T a, T b) __CPROVER_requires(DOM(a) && DOM(b)) __CPROVER_assigns() __CPROVER_ensures(RET == true) __VA_ARGS__
+#define H_REL2(hn, fn, T, DOM) void hn(void) { T a; T b; fn(a, b); CANARY(); }
+#define W_REL0(fn, ...) bool fn(void) __CPROVER_assigns() __CPROVER_ensures(RET == true) __VA_ARGS__
+#define H_REL0(hn, fn) void hn(void) { fn(); CANARY(); }
+#else
+#define W_REL2(fn, T, DOM, ...) bool fn(T a, T b) __VA_ARGS__
+#define H_REL2(hn, fn, T, DOM) void hn(void) { T a = (T)IN_a; T b = (T)IN_b; if (!(DOM(a) && DOM(b))) return; RP_CHECK(fn(a, b) == true); }
+#define W_REL0(fn, ...) bool fn(void) __VA_ARGS__
+#define H_REL0(hn, fn) void hn(void) { RP_CHECK(fn() == true); }
 #endif
 
 /* ghosts in native mode come from the trace of the globals */
